@@ -44,7 +44,7 @@ Section Atoms.
   Lemma bi_print_atomic : forall args v, bi_print o args = Ok v -> atomic v.
   Proof. intros args v H. unfold bi_print in H. ob H l. injection H as <-. exact I. Qed.
   Lemma bi_time_now_atomic : forall args v, bi_time_now o args = Ok v -> atomic v.
-  Proof. intros args v H. unfold bi_time_now in H. destruct (o_now o); [injection H as <-; exact I|discriminate H]. Qed.
+  Proof. intros args v H. unfold bi_time_now in H. injection H as <-; exact I. Qed.
 End Atoms.
 
 Lemma pure_atomic_agree : forall (f : list value -> outcome value) args st,
